@@ -16,7 +16,7 @@ MANIFEST = dict(
          "synchronous and asynchronous sources (collect_sync_async) and returns exactly when the trace has a terminal (collect_returns_iff). "
          "Tie: every catalogue operator and random chains over hot probes with self-unsubscribing observers at every k in 1..len+1 (ready-made Subscriber and returned handle; same goroutine and "
          "another goroutine mid-callback): trace, refused notifications, raw teardown count, closed flag EQUAL to the model; ro.CollectWithContext over synchronous and goroutine-driven probes: "
-         "returned values, error class, terminal context, and return/no-return EQUAL to the model.",
+         "returned values, error class, terminal context, and return/no-return EQUAL to the model; the same through Subscription.Wait with a terminal callback that blocks (Wait has not returned while it is in progress).",
     technique="Lean 4 proof (simulation between the undisturbed run and the cut-in run; fold lemma for the Collect observer) + differential correspondence of the executable model against the implementation",
     ref='5/C06')
 
@@ -55,7 +55,8 @@ def parts(ctx):
                           'k = 1..(trace length + 1), {self, other goroutine mid-callback} x {ready-made Subscriber, returned handle}: trace, refused notifications (single operators), raw teardown count, closed; '
                           'oracle on the implementation: at most k delivered, closed once k delivered, teardown at most once. '
                           'collect: every catalogue operator and random chains x {sync probe, goroutine-driven probe}: returned slice, error class, terminal context; returns within the deadline iff the '
-                          'delivered trace has a terminal (a further Complete offered to the source subscriber tells a slow return from a rightly blocked call)')
+                          'delivered trace has a terminal (a further Complete offered to the source subscriber tells a slow return from a rightly blocked call); mode=wait: sub.Wait() from a second goroutine against '
+                          'an observer whose terminal callback blocks: early=0')
 
 
 def check(ctx):
